@@ -108,10 +108,61 @@ func guards(c *Ctx, out string, stall time.Duration) {
 			if el < stall+time.Duration(allowance*float64(time.Second)) {
 				continue
 			}
+			if where, state := blockedInLibrary(); where != "" {
+				// not starved: the worker's main goroutine sits in a channel,
+				// lock or semaphore operation issued by the library itself
+				c.Violation("BLOCKED/"+sigHead(desc)+"/"+where, fmt.Sprintf("call did not return: blocked (%s) in %s for %.1f s during: %s", state, where, el.Seconds(), clip(desc, 300)),
+					map[string]interface{}{"wall_s": el.Seconds(), "blocked_in": where, "state": state, "call": clip(desc, 9000)})
+				abort(c, out, "hang", exitHang)
+			}
 			c.Inconclusive(fmt.Sprintf("no progress for %.1f s but only %.1f s of CPU used (starved?) during: %s", el.Seconds(), used, clip(desc, 200)))
 			abort(c, out, "stall", exitStall)
 		}
 	}()
+}
+
+// blockedInLibrary looks at the stack of the worker's main goroutine. If it
+// is parked in a channel, select, lock, condition or semaphore operation and
+// the function that issued that operation belongs to the library (not to a
+// reader, writer or the harness it called), it returns that function and the
+// goroutine state.
+func blockedInLibrary() (where, state string) {
+	buf := make([]byte, 1<<20)
+	buf = buf[:runtime.Stack(buf, true)]
+	for _, g := range strings.Split(string(buf), "\n\n") {
+		if !strings.HasPrefix(g, "goroutine 1 [") {
+			continue
+		}
+		lines := strings.Split(g, "\n")
+		state = strings.TrimSuffix(strings.TrimPrefix(lines[0], "goroutine 1 ["), "]:")
+		parked := false
+		for _, w := range []string{"chan receive", "chan send", "select", "semacquire", "sync.", "Lock", "Wait"} {
+			if strings.Contains(state, w) {
+				parked = true
+			}
+		}
+		if !parked {
+			return "", state
+		}
+		for _, l := range lines[1:] {
+			if strings.HasPrefix(l, "\t") || l == "" {
+				continue // file:line
+			}
+			fn := l
+			if strings.HasPrefix(fn, "runtime.") || strings.HasPrefix(fn, "sync.") || strings.HasPrefix(fn, "sync/") || strings.HasPrefix(fn, "internal/") || strings.HasPrefix(fn, "golang.org/x/sync") {
+				continue
+			}
+			if strings.HasPrefix(fn, "github.com/gregoryv/mq.") {
+				fn = strings.TrimPrefix(fn, "github.com/gregoryv/mq.")
+				if j := strings.LastIndexByte(fn, '('); j > 0 {
+					fn = fn[:j]
+				}
+				return fn, state
+			}
+			return "", state
+		}
+	}
+	return "", state
 }
 
 // threadCPUSeconds reads the CPU clock of thread tid of this process.
